@@ -1,3 +1,4 @@
+import Mdsort.Proofs.Opts
 import Mdsort.Proofs.World
 import Mdsort.Proofs.WorldDryStdin
 import Mdsort.Proofs.WorldStdinExample
@@ -13,18 +14,41 @@ open Mdsort Mdsort.Model
 
 /-- `-d` in maildir mode: whatever the configuration, the messages and the fault plan are, the run
 issues no mutating call (no create, write, rename, unlink, utimensat, mkdir, rmdir) and starts no
-process for an action.
+process for an action: a `fork` occurs only if some rule tree has a `command` CONDITION
+(`Proofs.confHasCommand conf`; conditions are evaluated under `-d` exactly as otherwise - `expr_eval_command`
+runs the program -, actions are never executed: `C05_dry_runs_no_action`).
 
-Scope (audit au1): "`c ≠ .fork`" holds because the world model has no call for `command` CONDITIONS - `processMessage`
-evaluates them with the constant oracle `command := fun _ => -1` (also `isDir := false`, `fileTime := none`; `orc :
-EvalOracles` only quantifies over regex, `strptime` and zone names).  mdsort itself does run the program of a `command`
-condition under `-d` (replayed: `match command { "touch" ".../ran" } move "dst"` with `-d` creates `ran`; the property text
-only excludes exec ACTIONS).  So for configurations with `command` / `isdirectory` / file-date conditions this theorem, and
-every world-level theorem of C01-C06, speaks about a run in which those conditions are errors / false. -/
+(Audit au1 noted that before package p4 "`c ≠ .fork`" held only because the world model had no call for `command` CONDITIONS -
+they were evaluated with the constant oracle -1 - while mdsort does run the program of a `command` condition under `-d`.  The
+conditions are now evaluated inside the run, `Model.evalP`; the statement says when a `fork` occurs, and the world-level theorems
+of C01-C06 speak about runs in which those conditions are answered by the operating system.) -/
 theorem C05_dry_no_mutation (env : PEnv) (orc : EvalOracles) (ok : Bool) (conf : List ConfBlock) (files : Files) (input : Bytes)
     (w : World) (plan : Plan) (hd : env.dryrun = true) (hm : env.stdinMode = false) :
-    ∀ c ∈ Proofs.callsOf plan (mainP env orc ok conf files input) w, c.mutating = false ∧ c ≠ .fork :=
+    ∀ c ∈ Proofs.callsOf plan (mainP env orc ok conf files input) w,
+      c.mutating = false ∧ (c = .fork → Proofs.confHasCommand conf = true) :=
   Proofs.dryrun_no_mutation env orc ok conf files input w plan hd hm
+
+/-- In particular a configuration without `command` condition starts no process under `-d` (the statement as it was
+before evaluation was part of the world model). -/
+theorem C05_dry_no_fork (env : PEnv) (orc : EvalOracles) (ok : Bool) (conf : List ConfBlock) (files : Files) (input : Bytes)
+    (w : World) (plan : Plan) (hd : env.dryrun = true) (hm : env.stdinMode = false)
+    (hc : Proofs.confHasCommand conf = false) :
+    ∀ c ∈ Proofs.callsOf plan (mainP env orc ok conf files input) w, c.mutating = false ∧ c ≠ .fork := by
+  intro c hcm
+  obtain ⟨h1, h2⟩ := C05_dry_no_mutation env orc ok conf files input w plan hd hm c hcm
+  exact ⟨h1, fun h => by rw [h2 h] at hc; cases hc⟩
+
+/-- **No exec action runs under `-d`**: once the rules have decided (whatever the verdict is: any action list, with
+any number of `exec` actions), the rest of the processing of the message is closing its descriptor - no `fork`, nothing
+else.  The only processes a dry run starts are those of `command` conditions during evaluation
+(`C03_evaluation_calls`). -/
+theorem C05_dry_runs_no_action (env : PEnv) (md : Maildir) (name : Bytes) (st : MainSt) (ms : MsgSt) (v : Proofs.Verdict)
+    (hd : env.dryrun = true) :
+    Proofs.World.Calls Proofs.IsClose (Proofs.afterVerdict env md name st ms v) :=
+  (Proofs.Own.dry_afterVerdict env md name st ms v hd).1
+
+example : ({ Proofs.examplePEnv with dryrun := true } : PEnv).dryrun = true := rfl
+example : Proofs.confHasCommand [] = false := rfl
 
 /-- `-n`: the whole run is opening and closing the configuration file. -/
 theorem C05_syntax_nothing (env : PEnv) (orc : EvalOracles) (ok : Bool) (conf : List ConfBlock) (files : Files) (input : Bytes)
@@ -32,6 +56,141 @@ theorem C05_syntax_nothing (env : PEnv) (orc : EvalOracles) (ok : Bool) (conf : 
     Proofs.callsOf plan (mainP env orc ok conf files input) w = [.fopen env.confpath] ∨
     ∃ h, Proofs.callsOf plan (mainP env orc ok conf files input) w = [.fopen env.confpath, .fclose h] :=
   Proofs.syntax_only_calls env orc ok conf files input w plan hn
+
+/-! ## The command line (package ce13): which mode a run is in
+
+`Model.parseArgs` (Model/Opts.lean) transcribes the `getopt(argc, argv, "D:df:nv")` loop of `main` and the operand test
+(glibc's `getopt`: it permutes unless `POSIXLY_CORRECT` is set - `permute`); `Model.mainArgs` is the whole program from
+`argv[1..]`, the raw environment and the text of the configuration file.  `Spec.cmdline` (Spec/Cmdline.lean) is the
+command line as mdsort(1) documents it: option words `-dnv...`, `-f file`, `-D name=value` (joined or separate, in
+any order, clustered), then `-` or nothing. -/
+
+/-- For EVERY documented command line - any number of well-formed option words in any order, then `-` or nothing, with
+or without `--` before the operand, under both orderings of `getopt` - `parseArgs` computes the documented meaning.
+In particular (third part) the run is a syntax check iff SOME word holds an `n`, a dry run iff some word holds a `d`,
+in stdin mode iff `-` was given, and the macros are the `-D` words in order. -/
+theorem C05_options_select_mode (permute : Bool) (items : List Spec.CmdItem) (hwf : ∀ it ∈ items, it.wf = true) (stdin : Bool) :
+    parseArgs permute (Spec.renderCmd items ++ (if stdin then [[45]] else [])) = Spec.cmdline items stdin ∧
+    parseArgs permute (Spec.renderCmd items ++ dashdash :: (if stdin then [[45]] else [])) = Spec.cmdline items stdin ∧
+    ∀ o, Spec.cmdline items stdin = .ok o →
+      o.syntaxOnly = (items.any fun it => it.letters.contains 110) ∧
+      o.dryrun = (items.any fun it => it.letters.contains 100) ∧
+      o.stdinMode = stdin ∧ o.defs = items.filterMap Spec.CmdItem.defineOf := by
+  refine ⟨Proofs.Opts.parseArgs_cmdline permute items hwf stdin, ?_, ?_⟩
+  · rw [Proofs.Opts.parseArgs_words_dashdash permute items hwf]
+    unfold Spec.cmdline
+    cases Spec.cmdMeaning items {} with
+    | error e => rfl
+    | ok o => cases stdin <;> simp [operandStep]
+  · intro o h
+    unfold Spec.cmdline at h
+    cases hm : Spec.cmdMeaning items {} with
+    | error e => rw [hm] at h; cases h
+    | ok o1 =>
+      rw [hm] at h
+      simp only [Except.ok.injEq] at h
+      subst h
+      obtain ⟨a1, a2, a3, a4⟩ := Proofs.Opts.cmdMeaning_fields items {} o1 hm
+      obtain ⟨d1, d2, d3, d4, _⟩ := Proofs.Opts.dryVerbosity_fields (if stdin = true then { o1 with stdinMode := true } else o1)
+      rw [d1, d2, d3, d4]
+      cases stdin
+      · simp only [Bool.false_eq_true, if_false]
+        exact ⟨by rw [a1]; rfl, by rw [a2]; rfl, by rw [a3], by rw [a4]; rfl⟩
+      · simp only [if_true]
+        exact ⟨by rw [a1]; rfl, by rw [a2]; rfl, trivial, by rw [a4]; rfl⟩
+
+/-- Non-vacuity and the shapes the generators use: `-n` last, first, clustered, after the operand (permuted), `-f`
+joined and separate, the last `-f` wins, `-d` makes the run verbose. -/
+example :
+    (parseArgs true ["-f".toUTF8.toList, "c".toUTF8.toList, "-n".toUTF8.toList]).toOption.map (·.syntaxOnly) = some true ∧
+    (parseArgs true ["-vnd".toUTF8.toList, "-fc".toUTF8.toList]).toOption.map (fun o => (o.syntaxOnly, o.dryrun, o.verbosity, o.confpath)) =
+      some (true, true, 1, some "c".toUTF8.toList) ∧
+    (parseArgs true ["-".toUTF8.toList, "-n".toUTF8.toList]).toOption.map (fun o => (o.syntaxOnly, o.stdinMode)) = some (true, true) ∧
+    parseArgs false ["-".toUTF8.toList, "-n".toUTF8.toList] = .error .usage := by
+  decide +kernel
+
+example :
+    (parseArgs true ["-f".toUTF8.toList, "a".toUTF8.toList, "-f".toUTF8.toList, "b".toUTF8.toList]).toOption.map (·.confpath) =
+      some (some "b".toUTF8.toList) ∧
+    (parseArgs true ["-d".toUTF8.toList]).toOption.map (·.verbosity) = some 1 ∧
+    (parseArgs true ["-dvv".toUTF8.toList]).toOption.map (·.verbosity) = some 2 ∧
+    (parseArgs true []).toOption.map (fun o => (o.syntaxOnly, o.dryrun, o.stdinMode, o.confpath.isNone, o.verbosity)) =
+      some (false, false, false, true, 0) := by
+  decide +kernel
+
+/-- glibc's permutation as a theorem: operands (non-options) standing BETWEEN option words do not end the options - the
+words after them count as if they stood before (`mdsort - -n` is a syntax check of stdin mode).  With `POSIXLY_CORRECT`
+the first non-option ends the options and everything after it is an operand (`mdsort - -n`: two operands, usage). -/
+theorem C05_options_after_operand (items1 items2 : List Spec.CmdItem) (h1 : ∀ it ∈ items1, it.wf = true)
+    (h2 : ∀ it ∈ items2, it.wf = true) (ops : List Bytes) (hops : ops.all isNonOption = true) :
+    parseArgs true (Spec.renderCmd items1 ++ ops ++ Spec.renderCmd items2) = parseArgs true (Spec.renderCmd (items1 ++ items2) ++ ops) ∧
+    ∀ a rest, isNonOption a = true →
+      parseArgs false (Spec.renderCmd items1 ++ a :: rest) =
+        match Spec.cmdMeaning items1 {} with
+        | .error e => .error e
+        | .ok o =>
+          match operandStep o (a :: rest) with
+          | .error e => .error e
+          | .ok o' => .ok (dryVerbosity o') :=
+  ⟨Proofs.Opts.parseArgs_permuted items1 items2 h1 h2 ops hops,
+   fun a rest ha => Proofs.Opts.parseArgs_posix_stops items1 h1 a ha rest⟩
+
+/-- `-n` on the command line, anywhere `parseArgs` accepts it: whatever the environment, the configuration text, the
+maildirs and the fault plan, the run ends with status 1 before any call (`readenv` / `defaultconf` give up), or it opens
+the configuration file - the `-f` argument, else `$HOME/.mdsort.conf` - closes it, and issues no other call: no maildir,
+no message, no process (`C05_syntax_nothing` for the run from `argv`). -/
+theorem C05_args_syntax_nothing (permute : Bool) (args : List Bytes) (raw : RawEnv) (env : PEnv) (orc : EvalOracles)
+    (rxOk : Pat → Bool) (confText : Bytes) (files : Files) (input : Bytes) (w : World) (plan : Plan) (o : Opts)
+    (h : parseArgs permute args = .ok o) (hn : o.syntaxOnly = true) :
+    Proofs.callsOf plan (mainArgs permute args raw env orc rxOk confText files input) w = [] ∨
+    ∃ home tmpdir confpath, startPaths raw o.confpath = .ok (home, tmpdir, confpath) ∧
+      (Proofs.callsOf plan (mainArgs permute args raw env orc rxOk confText files input) w = [.fopen confpath] ∨
+       ∃ hd, Proofs.callsOf plan (mainArgs permute args raw env orc rxOk confText files input) w = [.fopen confpath, .fclose hd]) := by
+  rcases Proofs.Opts.mainArgs_accepted permute args raw env orc rxOk confText files input o h with h1 | ⟨home, tmpdir, confpath, ok, conf, hs, h2⟩
+  · left
+    rw [h1]; exact (Proofs.Opts.ret_run plan _ w).2
+  · right
+    refine ⟨home, tmpdir, confpath, hs, ?_⟩
+    rw [h2]
+    exact C05_syntax_nothing (Proofs.Opts.runEnv env o home tmpdir confpath) orc ok conf files input w plan hn
+
+/-- `-d` on the command line (without `-`): no call of the run changes anything, and a process is started only for a
+`command` CONDITION of the configuration the run reads (`C05_dry_no_mutation` for the run from `argv`: a `fork` occurs only
+when the run is `mainP` of a configuration with `Proofs.confHasCommand`; never for an action). -/
+theorem C05_args_dry_no_mutation (permute : Bool) (args : List Bytes) (raw : RawEnv) (env : PEnv) (orc : EvalOracles)
+    (rxOk : Pat → Bool) (confText : Bytes) (files : Files) (input : Bytes) (w : World) (plan : Plan) (o : Opts)
+    (h : parseArgs permute args = .ok o) (hd : o.dryrun = true) (hm : o.stdinMode = false) :
+    ∀ c ∈ Proofs.callsOf plan (mainArgs permute args raw env orc rxOk confText files input) w,
+      c.mutating = false ∧
+      (c = .fork → ∃ home tmpdir confpath ok conf,
+        mainArgs permute args raw env orc rxOk confText files input =
+          mainP (Proofs.Opts.runEnv env o home tmpdir confpath) orc ok conf files input ∧
+        Proofs.confHasCommand conf = true) := by
+  rcases Proofs.Opts.mainArgs_accepted permute args raw env orc rxOk confText files input o h with h1 | ⟨home, tmpdir, confpath, ok, conf, _, h2⟩
+  · rw [h1, (Proofs.Opts.ret_run plan _ w).2]; intro c hc; cases hc
+  · intro c hc
+    rw [h2] at hc
+    have := C05_dry_no_mutation (Proofs.Opts.runEnv env o home tmpdir confpath) orc ok conf files input w plan hd hm c hc
+    exact ⟨this.1, fun hf => ⟨home, tmpdir, confpath, ok, conf, h2, this.2 hf⟩⟩
+
+/-- `-v` changes nothing but stderr: two command lines whose accepted options differ in the verbosity only are the same
+program (the correspondence compares the final trees and exit statuses of runs with and without `-v`). -/
+theorem C05_verbose_same_run (p1 p2 : Bool) (args1 args2 : List Bytes) (o1 o2 : Opts) (h1 : parseArgs p1 args1 = .ok o1)
+    (h2 : parseArgs p2 args2 = .ok o2) (heq : { o1 with verbosity := 0 } = { o2 with verbosity := 0 })
+    (raw : RawEnv) (env : PEnv) (orc : EvalOracles) (rxOk : Pat → Bool) (confText : Bytes) (files : Files) (input : Bytes) :
+    mainArgs p1 args1 raw env orc rxOk confText files input = mainArgs p2 args2 raw env orc rxOk confText files input := by
+  have e : o1.dryrun = o2.dryrun ∧ o1.syntaxOnly = o2.syntaxOnly ∧ o1.stdinMode = o2.stdinMode ∧ o1.confpath = o2.confpath ∧
+      o1.defs = o2.defs := by
+    cases o1; cases o2
+    simp only [Opts.mk.injEq] at heq
+    exact ⟨heq.1, heq.2.1, heq.2.2.1, heq.2.2.2.1, heq.2.2.2.2.1⟩
+  simp only [mainArgs, h1, h2, e.1, e.2.1, e.2.2.1, e.2.2.2.1, e.2.2.2.2]
+
+example :
+    (match parseArgs true ["-vvn".toUTF8.toList], parseArgs true ["-n".toUTF8.toList] with
+     | .ok o1, .ok o2 => decide ({ o1 with verbosity := 0 } = { o2 with verbosity := 0 }) && o1.verbosity == 2
+     | _, _ => false) = true := by
+  decide +kernel
 
 /-! ## dry run in stdin mode (`-d -`)
 
@@ -46,8 +205,11 @@ complete description of a call `c` issued when the calls and results so far are 
   create returned (`dry_IsFd`); `unlinkat` on such a stream of a name its `readdir` returned; `rmdir` of such a
   `root`, of its `new`, or of the empty path (the cleanup after a failed `mkdtemp`, which names nothing);
 * `read` and `close`;
-* nothing else: no `renameat`, `unlink`, `utimensat`, `mkostemp`, `fprintf`, `fork`, `waitpid`, `stat`, and no
-  `opendir` of a configured maildir or of a destination. -/
+* the calls of the conditions that ask the operating system: `open("/dev/null")`, `fork`, `waitpid` only if some rule
+  tree has a `command` condition (`cm = Proofs.confHasCommand conf`), `stat` only if some has an `isdirectory` or a
+  file-time `date` condition (`sa = Proofs.confHasStat conf`);
+* nothing else: no `renameat`, `unlink`, `utimensat`, `mkostemp`, `fprintf`, and no
+  `opendir` of a configured maildir or of a destination; no process for an action. -/
 
 /-- `-d -`, whatever the calls return (hence under every fault plan and every interleaving with other
 processes), whatever the configuration, the registry and the input are: every call of the run is one of
@@ -59,7 +221,8 @@ allowance; a run that ends with `fuelOut = false` is the run of the unbounded lo
 theorem C05_dry_stdin (env : PEnv) (orc : EvalOracles) (ok : Bool) (conf : List ConfBlock) (files : Files) (input : Bytes)
     (hd : env.dryrun = true) (hm : env.stdinMode = true) (orcl : Nat → Call → Res) :
     ∀ i c r, (runOracle orcl (mainP env orc ok conf files input) 0 []).2[i]? = some (c, r) →
-      Proofs.DrySpoolCall env ((runOracle orcl (mainP env orc ok conf files input) 0 []).2.take i) c :=
+      Proofs.DrySpoolCall env (Proofs.confHasCommand conf) (Proofs.confHasStat conf)
+        ((runOracle orcl (mainP env orc ok conf files input) 0 []).2.take i) c :=
   Proofs.dry_stdin_calls env orc ok conf files input hd hm orcl
 
 /-- The same for the execution on the abstract file system under any fault plan (`tr` = the calls the
@@ -67,16 +230,18 @@ run added to the trace of the world). -/
 theorem C05_dry_stdin_plan (env : PEnv) (orc : EvalOracles) (ok : Bool) (conf : List ConfBlock) (files : Files) (input : Bytes)
     (w : World) (plan : Plan) (hd : env.dryrun = true) (hm : env.stdinMode = true) :
     ∀ i c r, ((runPlan plan (mainP env orc ok conf files input) w 0 []).2.1.trace.drop w.trace.length)[i]? = some (c, r) →
-      Proofs.DrySpoolCall env (((runPlan plan (mainP env orc ok conf files input) w 0 []).2.1.trace.drop w.trace.length).take i) c :=
+      Proofs.DrySpoolCall env (Proofs.confHasCommand conf) (Proofs.confHasStat conf)
+        (((runPlan plan (mainP env orc ok conf files input) w 0 []).2.1.trace.drop w.trace.length).take i) c :=
   Proofs.dry_stdin_calls_plan env orc ok conf files input w plan hd hm
 
-/-- (Audit au1: a reading lemma - the hypothesis `DrySpoolCall env tr c` contains the conclusion, this is its projection
+/-- (Audit au1: a reading lemma - the hypothesis `DrySpoolCall env cm sa tr c` contains the conclusion, this is its projection
 `DrySpoolCall.kinds`; the statement about runs is `C05_dry_stdin`.)
-Read for the mutating calls only: no process is started, and a mutating call is the `mkdtemp` of the
-spool template, the `mkdir` of the spool's `new`, an exclusive create or an `unlinkat` in the spool, a
+Read for the mutating calls only: a process is started only for a `command` condition, and a mutating call is the
+`mkdtemp` of the spool template, the `mkdir` of the spool's `new`, an exclusive create or an `unlinkat` in the spool, a
 `write` to the spool file, or the `rmdir` of the spool. -/
-theorem C05_dry_stdin_mutating (env : PEnv) (tr : List (Call × Res)) (c : Call) (h : Proofs.DrySpoolCall env tr c) :
-    c ≠ .fork ∧ (c.mutating = true →
+theorem C05_dry_stdin_mutating (env : PEnv) (cm sa : Bool) (tr : List (Call × Res)) (c : Call)
+    (h : Proofs.DrySpoolCall env cm sa tr c) :
+    (c = .fork → cm = true) ∧ (c.mutating = true →
       (∃ t, c = .mkdtemp t ∧ pathjoin PATH_MAX env.tmpdir (ofString "mdsort-XXXXXXXX") = some t) ∨
       (∃ p, c = .mkdir p ∧ Proofs.dry_IsNew tr p) ∨
       (∃ d n, c = .openExcl d n ∧ Proofs.dry_IsDir tr d) ∨
@@ -107,7 +272,7 @@ theorem C05_syntax_stdin (env : PEnv) (orc : EvalOracles) (ok : Bool) (conf : Li
 
 /-- Non-vacuity of `C05_dry_stdin_mutating` (added by audit au1): at the start of the example run the `mkdtemp` of the spool
 template is a `DrySpoolCall`, and it is mutating. -/
-example : Proofs.DrySpoolCall { Proofs.StdinExample.env0 with dryrun := true } []
+example : Proofs.DrySpoolCall { Proofs.StdinExample.env0 with dryrun := true } false false []
       (.mkdtemp (Proofs.World.spoolRoot { Proofs.StdinExample.env0 with dryrun := true })) ∧
     (Call.mkdtemp (Proofs.World.spoolRoot { Proofs.StdinExample.env0 with dryrun := true })).mutating = true :=
   ⟨show pathjoin PATH_MAX ({ Proofs.StdinExample.env0 with dryrun := true } : PEnv).tmpdir (ofString "mdsort-XXXXXXXX") =
